@@ -20,7 +20,7 @@ import vlib, graphwalk
 
 PID = "C06"
 TLC_WORKERS = 4
-CLAUSES = ["GateBeforeInit", "DuplicateInitRejected", "PrematureInitializedRejected", "RepeatedInitializedRejected",
+CLAUSES = ["GateBeforeInit", "DuplicateInitRejected", "PrematureInitializedRejected", "RepeatedInitializedRejected", "FirstInitializedTakesEffect",
            "PingAlways", "ModernServedIffMetaComplete", "RemovedMethodsNotFound"]
 PROBES = [{"m": "tools/list", "mt": "none", "ip": "na"}, {"m": "notifications/initialized", "mt": "none", "ip": "na"}]
 HARNESS = ["mcp/c06_lifecycle_test.go"]
